@@ -31,6 +31,13 @@ func tool(args []string) {
 		r := Replay{Property: args[1], Kind: "lex", What: "", Data: lexReplayData(cs, []byte(in), resets, args[4] == "1")}
 		b, _ := json.MarshalIndent(r, "", " ")
 		fmt.Println(string(b))
+	case "synjson":
+		gs := append(curatedSyn(), curatedErrSyn()...)
+		fmt.Println(string(mustJSON(mcGrammarEntries(gs))))
+	case "synbnf":
+		idx, _ := strconv.Atoi(args[1])
+		gs := append(curatedSyn(), curatedErrSyn()...)
+		fmt.Print(gs[idx].render())
 	default:
 		usage()
 	}
